@@ -35,6 +35,15 @@ static ldb_batch_t *make_batch(int b, char *desc, int maxops, int small) {
   sprintf(kb, "m%05d", b); k = ldb_string(kb);
   val = d_mkval(b * 8 + 7, 6); v = ldb_slice(val, 6); ldb_batch_put(wb, &k, &v); free(val);
   desc[0] = 0;
+  if (!small && getenv("CRASH_BIGBATCH") != NULL && b % 3 == 0) {
+    /* a batch spanning several 32 KiB log blocks: filler between the marker (first) and the data keys (last), so that a prefix of
+       the batch would show as "marker without its data" */
+    int f; char zk[128]; char *big = malloc(30000);
+    memset(big, 'f', 30000);
+    for (f = 0; f < 4; f++) { memset(zk, 'Z', 120); sprintf(zk + 1, "%05d%d", b, f); zk[7] = 'Z'; k = ldb_slice(zk, 120); v = ldb_slice(big, 30000); ldb_batch_put(wb, &k, &v); }
+    free(big);
+    if (n == 0) n = 1;
+  }
   for (j = 0; j < n; j++) {
     int kk = d_rn(NDK); k = ldb_string(dkeys[kk]);
     if (d_rn(5) == 0) { ldb_batch_del(wb, &k); p += sprintf(desc + p, "%s%d:0", j ? "," : "", kk); }
